@@ -72,6 +72,43 @@ def min_of(fn, C, n, rem, ):
             return None
     return S
 
+def min_forms(L, fn, n):
+    """n == min(E, S) with E, S polynomial forms (poly.py) - decided like min_of, but the arms and the compared values are
+    matched as values, so `remaining` may be an expression (total - consumed) instead of a variable.  -> [(E, S), (S, E)] or []"""
+    from ..oblig import _eval_icmp
+    d = fn.defs.get(n)
+    if d is None:
+        return []
+    cond = tv = fv = None
+    if d.op == 'select':
+        cond, tv, fv = fn.defs.get(d.ops[0]), d.ops[1], d.ops[2]
+    elif d.op == 'phi' and len(d.incoming) == 2:
+        b0, b1 = fn.blocks[d.incoming[0][1]], fn.blocks[d.incoming[1][1]]
+        pred = [p for p in b0.preds if p in b1.preds or p is b1] or [p for p in b1.preds if p is b0]
+        if pred and pred[0].insts[-1].op == 'br' and pred[0].insts[-1].ops:
+            t = pred[0].insts[-1]
+            cond = fn.defs.get(t.ops[0])
+            tb = fn.blocks[t.targets[0]]
+            if tb is b0 or (tb is d.bb and pred[0] is b0):
+                tv, fv = d.incoming[0][0], d.incoming[1][0]
+            elif tb is b1 or (tb is d.bb and pred[0] is b1):
+                tv, fv = d.incoming[1][0], d.incoming[0][0]
+    if cond is None or cond.op != 'icmp' or tv is None:
+        return []
+    pa, pb, ptv, pfv = (L.pc.val(x) for x in (cond.ops[0], cond.ops[1], tv, fv))
+    out = []
+    for E, S in ((ptv, pfv), (pfv, ptv)):
+        if E == S or not ({str(pa), str(pb)} == {str(E), str(S)}):
+            continue
+        good = True
+        for rv, sv in ((1, 2), (2, 2), (2, 1), (0, 5), (7, 3)):
+            env = {str(E): rv, str(S): sv}
+            got = env[str(ptv)] if _eval_icmp(cond.pred, env[str(pa)], env[str(pb)], 32) else env[str(pfv)]
+            good = good and got == min(rv, sv)
+        if good:
+            out.append((E, S))
+    return out
+
 def affine_form(P, f, C, M, n, cursor_side):
     """copy length n = min(T - X, S) with the position = base + X, X = i*S.  -> (ok, message) or None if not this shape"""
     nd = f.defs.get(n)
@@ -133,7 +170,21 @@ def cursor_rule(P, r, fname, cursor_side):
             init, step = L.recurrence(phi)
             if step is not None and (step + npoly).is_zero() and not npoly.is_zero():
                 rem.append(phi)
+        gen = None
         if not rem:
+            # `remaining` as an expression over the loop's variables (total - consumed): it must drop by n per iteration
+            phd = {p.res: p for p in L.phis}
+            for E, S_ in min_forms(L, f, n):
+                dE, known = Poly(), bool(E.atoms() & set(phd))
+                for a in sorted(E.atoms() & set(phd)):
+                    st_ = L.recurrence(phd[a])[1]
+                    if st_ is None:
+                        known = False
+                        break
+                    dE = dE + (E.subst(a, Poly.atom(a) + st_) - E)
+                if known and (dE + npoly).is_zero() and not npoly.is_zero() and L.invariant(S_):
+                    gen = (E, S_)
+        if not rem and gen is None:
             aff = affine_form(P, f, C, M, n, cursor_side)
             if aff is not None:
                 found += 1
@@ -155,9 +206,12 @@ def cursor_rule(P, r, fname, cursor_side):
             continue
         found += 1
         inst = f'{fname}: memcpy at line {M.line}'
-        R = rem[0]
         problems = []
-        S = min_of(f, C, n, R.res)
+        if rem:
+            R = rem[0]
+            S = min_of(f, C, n, R.res)
+        else:
+            S = str(gen[1])
         if S is None:
             problems.append(f'bytes copied ({C.val(n)}) is not min(remaining, payload size)')
         # cursor: position used by the copy, as a function of the header phis; its change over one iteration must be n
@@ -193,7 +247,7 @@ def cursor_rule(P, r, fname, cursor_side):
             r.fail(inst, func=f.name, sig='cursor discipline: ' + problems[0][:90], loc=M.loc,
                    msg='split/reassembly loop breaks the cursor discipline: ' + '; '.join(problems))
         else:
-            r.ok(inst + f': copy = advance = decrement = min(remaining, {C.val(S)})', func=f.name, loc=M.loc)
+            r.ok(inst + f': copy = advance = decrement = min(remaining, {C.val(S) if rem else S})', func=f.name, loc=M.loc)
     if not found:
         r.undecided(f'{fname}: copy loop', msg='no loop with a memcpy and a decreasing remaining-length variable was recognised')
 
@@ -322,24 +376,45 @@ def run(ctx):
     fs = P.fn('fragments_to_string')
     Cs = Canon(P, fs)
     from ..cfg import natural_loops as _nl
+    # the gate compares the number of counted fragments with k: a counter d that starts at `init` and moves by `step` per counted
+    # fragment has counted (d - init) / step of them, so the gate is a comparison of  d - init - step * k  with zero - whether the
+    # counter runs from 0 up to k or from k down to 0
+    from ..poly import PolyCtx as _PCe, Poly as _Pe
+    pce = _PCe(P, fs, Cs)
+    Ke = _Pe.atom('arg0')
     gates = []
     for b in fs.order:
         t = b.insts[-1]
         if t.op == 'br' and len(t.targets) == 2 and t.ops:
             c = fs.defs.get(t.ops[0])
-            if c is not None and c.op == 'icmp' and c.pred in ('ne', 'eq', 'slt', 'sge'):
-                ops_ = [strip_int_casts(fs, o) for o in c.ops]
-                if fs.params[0][1] in ops_:
-                    other = [o for o in ops_ if o != fs.params[0][1]]
-                    d = fs.defs.get(other[0]) if other else None
-                    if d is not None and d.op == 'phi' and any(v == '0' for v, _ in d.incoming):
-                        gates.append((c, d))
+            if c is not None and c.op == 'icmp' and not (c.ty or '').endswith('*'):
+                D = pce.val(c.ops[0]) - pce.val(c.ops[1])
+                phis_ = [a_ for a_ in D.atoms() if a_.startswith('%') and fs.defs.get(a_) is not None and fs.defs[a_].op == 'phi']
+                if len(phis_) != 1:
+                    continue
+                d = fs.defs[phis_[0]]
+                for v_, _l in d.incoming:
+                    init = pce.val(v_)
+                    if init.atoms() & {x.res for x in fs.insts() if x.op == 'phi'}:
+                        continue
+                    for step in (1, -1):
+                        want = _Pe.atom(d.res) - init - Ke * step
+                        if (D == want or D == -want) and (d, step) not in [(g_[1], g_[2]) for g_ in gates]:
+                            gates.append((c, d, step))
     if not gates:
         re_.undecided('count gate', loc=fs.mod.src, msg='no comparison of a counter with k found in fragments_to_string')
-    for c, cphi in gates:
-        incs = [i for i in fs.insts() if i.op == 'add' and cphi.res in [strip_int_casts(fs, o) for o in i.ops] and '1' in i.ops]
+    for c, cphi, step in gates:
+        incs = []
+        for i in fs.insts():
+            if i.op in ('add', 'sub') and i.res:
+                pv = pce.val(i.res)
+                if any(pv == _Pe.atom(w_) + _Pe.const(step) for w_ in pv.atoms() if w_.startswith('%') and fs.defs.get(w_) is not None and fs.defs[w_].op == 'phi'):
+                    # the moved value flows back into the counter
+                    if any(i.res in [v_ for v_, _ in ph.incoming] for ph in fs.insts() if ph.op == 'phi') and \
+                       (pv - _Pe.const(step)).atoms() & ({cphi.res} | {v_ for v_, _ in cphi.incoming}):
+                        incs.append(i)
         if not incs:
-            re_.undecided(f'counter {cphi.res}', loc=c.loc, msg='counter is never incremented by one')
+            re_.undecided(f'counter {cphi.res}', loc=c.loc, msg='counter is never moved by one')
         for inc in incs:
             F = Facts(P, fs, inc.bb)
             sts = [i for i in inc.bb.insts if i.op == 'store' and i.ty.endswith('*')]
